@@ -189,6 +189,41 @@ func genC02(m *M, budget int) {
 				m.EAdd(2, 1)
 			}
 		}
+		// SYSTEMATIC part (own random stream): every (boundary window kind x coordinate role) in turn, and the pairs with
+		// y2 = -y1 but x2 = beta x1 (Y1 Z2 + Y2 Z1 = 0 without Q = -P), added and subtracted in both orders
+		budget += m.withAux(func() {
+			for i := 0; i < 4; i++ {
+				x, y, cls := m.boundaryPointSys()
+				m.class("boundary_walk:" + cls)
+				m.putPoint(0, x, y, "one")
+				m.ESet(1, 0)
+				m.ESet(2, 0)
+				m.EDouble(0)
+				m.EAdd(1, 1)
+				m.ESub(0, 2) // 2P - P
+				m.EEqual(0, 2)
+			}
+			x, y := m.randPoint()
+			la, lb := "one", "one"
+			if k%2 == 0 {
+				la, lb = m.anyLam(), m.anyLam()
+			}
+			bx := mulmod(x, beta, bigP)
+			if k%3 == 0 {
+				bx = mulmod(bx, beta, bigP)
+			}
+			m.class("rel:same_y_negated")
+			m.putPoint(0, x, y, la)
+			m.putPoint(1, bx, new(big.Int).Sub(bigP, y), lb)
+			m.ESet(2, 0)
+			m.ESet(3, 1)
+			m.EAdd(0, 1)
+			m.EAdd(3, 2)
+			m.EEqual(0, 3)
+			m.putPoint(1, bx, y, lb)
+			m.ESub(2, 1) // P - (beta x, y) = P + (beta x, -y)
+			m.EEqual(2, 0)
+		})
 	}
 }
 
@@ -259,6 +294,19 @@ func genC05(m *M, budget int) {
 			m.ENegate(1)
 			m.EEqual(1, 0)
 			m.EIsIdentity(0)
+		}
+		if c%2 == 0 { // SYSTEMATIC (own random stream): every (boundary window kind x coordinate role) in turn
+			budget += m.withAux(func() {
+				x, y, cls := m.boundaryPointSys()
+				m.class("boundary_walk:" + cls)
+				m.putPoint(0, x, y, "one")
+				m.putPoint(1, x, y, m.anyLam())
+				m.EEqual(0, 1)
+				m.EEqual(1, 0)
+				m.ENegate(1)
+				m.EEqual(0, 1)
+				m.EIsIdentity(1)
+			})
 		}
 		if m.raw && c%3 == 1 {
 			// two representations of ONE point scaled so that a cross product of the comparison (X1*Z2 or Y1*Z2) has a
@@ -394,6 +442,20 @@ func genC04(m *M, budget int) {
 				m.EEncodeUnc(0)
 			}
 		}
+		// SYSTEMATIC (own random stream): every (boundary window kind x coordinate role) in turn, encoded and decoded back
+		budget += m.withAux(func() {
+			for i := 0; i < 3; i++ {
+				x, y, cls := m.boundaryPointSys()
+				m.class("boundary_walk:" + cls)
+				m.putPoint(0, x, y, m.anyLam())
+				enc := m.EEncode(0)
+				unc := m.EEncodeUnc(0)
+				m.EDecodeForm(1, "any", enc)
+				m.EEqual(1, 0)
+				m.EDecodeForm(2, "any", unc)
+				m.EEqual(2, 0)
+			}
+		})
 		// representations whose Z has every stored limb one of TWO values, 0 and w (all 15 masks of w = 1, 2^63, 2^64-1,
 		// in turn over the histories): what an OR / AND over the limbs of Z collapses to a single word
 		if m.raw {
@@ -582,6 +644,33 @@ func genC03(m *M, budget int) {
 	forms := []string{"any", "unmarshal", "comp", "unc", "hex"}
 	for m.events < budget {
 		m.reset()
+		// SYSTEMATIC part (own random stream): exactly one coordinate >= p with the other one right, through every entry
+		// point that takes two coordinates; and a point of every (boundary window kind x coordinate role) in turn
+		budget += m.withAux(func() {
+			sx, sy := m.smallXPoint() // small x: x + p < 2^256
+			xp := be32(new(big.Int).Add(sx, bigP))
+			m.EDecodeCoords(0, xp, be32(sy))
+			m.EDecodeForm(1, []string{"unc", "any", "unmarshal"}[m.hist%3], append(append([]byte{4}, xp...), be32(sy)...))
+			for {
+				if px, py := pointWithY(big.NewInt(int64(1 + m.rng.Intn(1<<20)))); px != nil {
+					yp := be32(new(big.Int).Add(py, bigP)) // small y: y + p < 2^256
+					m.EDecodeCoords(0, be32(px), yp)
+					m.EDecodeForm(1, []string{"any", "unmarshal", "unc"}[m.hist%3], append(append([]byte{4}, be32(px)...), yp...))
+					m.EDecodeCoords(2, be32(px), be32(py)) // and the honest one
+					break
+				}
+			}
+			for i := 0; i < 2; i++ {
+				x, y, cls := m.boundaryPointSys()
+				m.class("boundary_walk:" + cls)
+				if i == 0 {
+					m.EDecodeCoords(0, be32(x), be32(y))
+				} else {
+					m.EDecodeForm(0, "any", append([]byte{byte(2 + y.Bit(0))}, be32(x)...))
+				}
+				m.EDouble(0)
+			}
+		})
 		m.priorReceiver(0)
 		for i := 0; i < 40; i++ {
 			if m.rng.Intn(8) == 0 {
